@@ -1,810 +1,11 @@
-(* Lemmas about Model/Discrete.v (property C12).
-   Part 1: lists / sets.   Part 2: L0 breadth-first levels and the L1 generation
-   sequence (pure).   Part 3: the L2 model with deterministic rules is a pure
-   function; one step realises one generation whatever the iteration order.
-   Part 4: the whole run: rows and node histories are those of the L1
-   generations (hence independent of the order oracle), fuel suffices.
-   Part 5: Bernoulli(p) rules: product law of one step (Reed-Frost, SIS) and of
-   percolate_network. *)
+(* Lemmas about Model/Discrete.v (property C12), continued.  Parts 1-4 (lists / sets; breadth-first
+   levels and the generation sequence; deterministic rules; the whole run) are in
+   Proofs/DiscreteGenP.v, re-exported here so that `Require Import DiscreteP` gives everything.
+   Part 5: Bernoulli(p) rules: product law of one step (Reed-Frost, SIS) and of percolate_network.
+   Part 6: deferred decisions, pathwise. *)
 From EoNV Require Import Prelude Samp Graph Discrete.
+From EoNV Require Export DiscreteGenP.
 From Coq Require Import Permutation Lqa.
-
-(* ------------------------------------------------------------------ *)
-(* Part 1: membership, filters                                          *)
-
-Lemma dmem_In : forall x l, mem x l = true <-> In x l.
-Proof.
-  intros x l. unfold mem. rewrite existsb_exists. split.
-  - intros [y [Hy E]]. apply N.eqb_eq in E. subst y. exact Hy.
-  - intro H. exists x. split; [exact H|apply N.eqb_refl].
-Qed.
-
-Lemma dmem_false : forall x l, mem x l = false <-> ~ In x l.
-Proof.
-  intros x l. rewrite <- dmem_In. destruct (mem x l); split; intro H.
-  - discriminate.
-  - exfalso. apply H. reflexivity.
-  - intro H2. discriminate.
-  - reflexivity.
-Qed.
-
-Lemma mem_ext_In : forall l l', (forall x, In x l <-> In x l') -> forall x, mem x l = mem x l'.
-Proof.
-  intros l l' H x. destruct (mem x l) eqn:E.
-  - symmetry. apply dmem_In. apply H. apply dmem_In. exact E.
-  - symmetry. apply dmem_false. intro H2. apply H in H2. apply dmem_In in H2. congruence.
-Qed.
-
-Lemma mem_perm : forall l l' x, Permutation l l' -> mem x l = mem x l'.
-Proof.
-  intros l l' x P. apply mem_ext_In. intro y. split; intro H.
-  - eapply Permutation_in; eauto.
-  - eapply Permutation_in; [apply Permutation_sym; exact P|exact H].
-Qed.
-
-Lemma mem_cons : forall x y l, mem x (y :: l) = N.eqb x y || mem x l.
-Proof. reflexivity. Qed.
-
-Lemma mem_app : forall x l l', mem x (l ++ l') = mem x l || mem x l'.
-Proof. intros. unfold mem. apply existsb_app. Qed.
-
-Lemma mem_filter : forall x f l, mem x (filter f l) = mem x l && f x.
-Proof.
-  intros x f l. destruct (mem x (filter f l)) eqn:E.
-  - apply dmem_In in E. apply filter_In in E. destruct E as [E1 E2].
-    apply dmem_In in E1. rewrite E1, E2. reflexivity.
-  - destruct (mem x l) eqn:E1; [|reflexivity]. destruct (f x) eqn:E2; [|reflexivity].
-    apply dmem_false in E. exfalso. apply E. apply filter_In. split; [apply dmem_In; exact E1|exact E2].
-Qed.
-
-Lemma nodupb_NoDup : forall l, nodupb l = true -> NoDup l.
-Proof.
-  induction l as [|x l IH]; intro H; [constructor|].
-  cbn [nodupb] in H. apply andb_true_iff in H. destruct H as [H1 H2].
-  constructor; [|apply IH; exact H2]. apply dmem_false. apply negb_true_iff. exact H1.
-Qed.
-
-Lemma NoDup_filter : forall (f : node -> bool) l, NoDup l -> NoDup (filter f l).
-Proof.
-  intros f l H. induction H as [|x l Hx Hn IH]; [constructor|].
-  cbn [filter]. destruct (f x); [|exact IH]. constructor; [|exact IH].
-  intro H2. apply filter_In in H2. apply Hx. apply H2.
-Qed.
-
-Lemma canon_In : forall g l v, In v (canon g l) <-> In v (gnodes g) /\ In v l.
-Proof. intros g l v. unfold canon. rewrite filter_In. rewrite dmem_In. tauto. Qed.
-
-Lemma canon_ext : forall g l l', (forall v, In v (gnodes g) -> mem v l = mem v l') -> canon g l = canon g l'.
-Proof. intros g l l' H. unfold canon. apply filter_ext_in. exact H. Qed.
-
-Lemma lenZ_filter_split : forall (f : node -> bool) l,
-  lenZ l = (lenZ (filter f l) + lenZ (filter (fun x => negb (f x)) l))%Z.
-Proof.
-  intros f l. unfold lenZ. induction l as [|x l IH]; [reflexivity|].
-  cbn [filter length]. destruct (f x); cbn [negb length]; lia.
-Qed.
-
-(* a duplicate-free list inside a duplicate-free list is as long as its filter image *)
-Lemma NoDup_length_canon : forall g l, NoDup (gnodes g) -> NoDup l -> (forall v, In v l -> In v (gnodes g)) ->
-  length (canon g l) = length l.
-Proof.
-  intros g l Hg Hl Hsub.
-  assert (P : Permutation (canon g l) l).
-  { apply NoDup_Permutation; [apply NoDup_filter; exact Hg|exact Hl|].
-    intro v. rewrite canon_In. split; [tauto|]. intro H. split; [apply Hsub; exact H|exact H]. }
-  apply Permutation_length. exact P.
-Qed.
-
-Lemma existsb_perm : forall (A : Type) (f : A -> bool) l l', Permutation l l' -> existsb f l = existsb f l'.
-Proof.
-  intros A f l l' P. induction P; cbn [existsb]; try congruence.
-  - destruct (f y), (f x); reflexivity.
-Qed.
-
-(* ------------------------------------------------------------------ *)
-(* Part 2: breadth-first levels (L0) and the generation sequence (L1)   *)
-
-Section Generations.
-Variable g : graph.
-Variable T : node -> node -> bool.          (* the contact u -> v succeeds *)
-Variables i0 r0 : list node.
-
-(* u is infectious and makes a successful contact with v *)
-Definition hit (I : list node) (v : node) : bool :=
-  existsb (fun u => mem v (gadj g u) && T u v) I.
-
-(* (S_k, I_k): susceptible and infectious nodes after k steps *)
-Definition gen_next (SI : list node * list node) : list node * list node :=
-  let I' := filter (hit (snd SI)) (fst SI) in
-  (filter (fun v => negb (mem v I')) (fst SI), I').
-Definition gen0 : list node * list node :=
-  (filter (fun v => negb (mem v i0) && negb (mem v r0)) (gnodes g), canon g i0).
-Fixpoint gen (k : nat) : list node * list node :=
-  match k with O => gen0 | S k' => gen_next (gen k') end.
-Definition Sg (k : nat) := fst (gen k).
-Definition Ig (k : nat) := snd (gen k).
-
-(* L0: walks of successful contacts from the initially infected nodes that never
-   enter an initially recovered node *)
-Definition arc (u v : node) : Prop :=
-  In u (gnodes g) /\ In v (gadj g u) /\ T u v = true /\ ~ In v r0.
-Inductive walk : node -> nat -> Prop :=
-| walk0 : forall v, In v i0 -> walk v O
-| walkS : forall u v n, walk u n -> arc u v -> walk v (S n).
-(* breadth-first distance *)
-Definition bfs_dist (v : node) (n : nat) : Prop := walk v n /\ forall m, (m < n)%nat -> ~ walk v m.
-
-Hypothesis Hadj : forall u v, In u (gnodes g) -> In v (gadj g u) -> In v (gnodes g).
-Hypothesis Hi0 : forall v, In v i0 -> In v (gnodes g).
-Hypothesis Hdisj : forall v, In v i0 -> ~ In v r0.
-
-Lemma hit_spec : forall I v, hit I v = true <-> exists u, In u I /\ In v (gadj g u) /\ T u v = true.
-Proof.
-  intros I v. unfold hit. rewrite existsb_exists. split.
-  - intros [u [Hu H]]. apply andb_true_iff in H. destruct H as [H1 H2]. exists u.
-    split; [exact Hu|]. split; [apply dmem_In; exact H1|exact H2].
-  - intros [u [Hu [H1 H2]]]. exists u. split; [exact Hu|]. apply andb_true_iff. split; [apply dmem_In; exact H1|exact H2].
-Qed.
-
-Lemma hit_perm : forall I I' v, Permutation I I' -> hit I v = hit I' v.
-Proof. intros. unfold hit. apply existsb_perm. assumption. Qed.
-
-Lemma Sg_sub : forall k v, In v (Sg k) -> In v (gnodes g).
-Proof.
-  unfold Sg. induction k as [|k IH]; intros v H.
-  - cbn in H. apply filter_In in H. tauto.
-  - cbn [gen gen_next fst] in H. apply filter_In in H. apply IH. tauto.
-Qed.
-
-Lemma Ig_sub : forall k v, In v (Ig k) -> In v (gnodes g).
-Proof.
-  unfold Ig. intros [|k] v H.
-  - cbn in H. apply canon_In in H. tauto.
-  - cbn [gen gen_next snd] in H. apply filter_In in H. apply (Sg_sub k). tauto.
-Qed.
-
-Lemma gen_inv : forall k,
-  (forall v, In v (Ig k) <-> bfs_dist v k) /\
-  (forall v, In v (Sg k) <-> In v (gnodes g) /\ ~ In v r0 /\ forall m, (m <= k)%nat -> ~ walk v m).
-Proof.
-  induction k as [|k [IHI IHS]].
-  - split; intro v.
-    + unfold Ig. cbn [gen gen0 snd]. rewrite canon_In. split.
-      * intros [_ H]. split; [constructor; exact H|]. intros m Hm. lia.
-      * intros [H _]. inversion H; subst. split; [apply Hi0|]; assumption.
-    + unfold Sg. cbn [gen gen0 fst]. rewrite filter_In. rewrite andb_true_iff, !negb_true_iff, !dmem_false.
-      split.
-      * intros [Hg [Hi Hr]]. split; [exact Hg|]. split; [exact Hr|]. intros m Hm Hw.
-        assert (m = O) by lia. subst m. inversion Hw; subst. contradiction.
-      * intros [Hg [Hr Hw]]. split; [exact Hg|]. split; [|exact Hr]. intro Hi. apply (Hw O); [lia|constructor; exact Hi].
-  - assert (HI' : forall v, In v (Ig (S k)) <-> bfs_dist v (S k)).
-    { intro v. unfold Ig. cbn [gen gen_next snd]. fold (Sg k). fold (Ig k). rewrite filter_In. rewrite hit_spec. split.
-      - intros [HS [u [Hu [Ha Ht]]]]. apply IHS in HS. destruct HS as [Hg [Hr Hw]].
-        apply IHI in Hu. destruct Hu as [Hwu Hmin]. split.
-        + apply walkS with u; [exact Hwu|]. split; [|split; [exact Ha|split; [exact Ht|exact Hr]]].
-          apply (Ig_sub k). apply IHI. split; assumption.
-        + intros m Hm. apply Hw. lia.
-      - intros [Hw Hmin]. inversion Hw as [|u v' n Hwu Harc]; subst.
-        destruct Harc as [Hug [Ha [Ht Hr]]]. split.
-        + apply IHS. split; [apply Hadj with u; assumption|]. split; [exact Hr|].
-          intros m Hm. apply Hmin. lia.
-        + exists u. split; [|split; assumption]. apply IHI. split; [exact Hwu|].
-          intros m Hm Hwm. apply (Hmin (S m)); [lia|]. apply walkS with u; [exact Hwm|].
-          split; [exact Hug|split; [exact Ha|split; [exact Ht|exact Hr]]]. }
-    split; [exact HI'|]. intro v. unfold Sg. cbn [gen gen_next fst]. fold (Sg k). fold (Ig k).
-    rewrite filter_In. rewrite negb_true_iff, dmem_false.
-    change (filter (hit (Ig k)) (Sg k)) with (Ig (S k)). split.
-    + intros [HS Hn]. apply IHS in HS. destruct HS as [Hg [Hr Hw]]. split; [exact Hg|]. split; [exact Hr|].
-      intros m Hm Hwm. assert (E : (m <= k)%nat \/ m = S k) by lia. destruct E as [E|E].
-      * apply (Hw m E Hwm).
-      * subst m. apply Hn. apply HI'. split; [exact Hwm|]. intros m Hm2. apply Hw. lia.
-    + intros [Hg [Hr Hw]]. split.
-      * apply IHS. split; [exact Hg|]. split; [exact Hr|]. intros m Hm. apply Hw. lia.
-      * intro Hin. apply HI' in Hin. destruct Hin as [Hwk _]. apply (Hw (S k)); [lia|exact Hwk].
-Qed.
-
-(* the generation sets are the breadth-first levels *)
-Lemma gen_is_bfs : forall k v, In v (Ig k) <-> bfs_dist v k.
-Proof. intros k v. apply (gen_inv k). Qed.
-
-Lemma Sg_NoDup : NoDup (gnodes g) -> forall k, NoDup (Sg k).
-Proof.
-  intros Hn. unfold Sg. induction k as [|k IH]; cbn [gen gen0 gen_next fst]; apply NoDup_filter; assumption.
-Qed.
-
-Lemma Ig_NoDup : NoDup (gnodes g) -> forall k, NoDup (Ig k).
-Proof.
-  intros Hn [|k]; unfold Ig; cbn [gen gen0 gen_next snd].
-  - unfold canon. apply NoDup_filter. exact Hn.
-  - apply NoDup_filter. apply (Sg_NoDup Hn).
-Qed.
-
-(* S_k = S_{k+1} + I_{k+1} *)
-Lemma Sg_split : forall k, lenZ (Sg k) = (lenZ (Sg (S k)) + lenZ (Ig (S k)))%Z.
-Proof.
-  intro k. unfold Sg, Ig. cbn [gen gen_next fst snd]. fold (Sg k). fold (Ig k).
-  rewrite (lenZ_filter_split (hit (Ig k)) (Sg k)).
-  assert (E : filter (fun v => negb (mem v (filter (hit (Ig k)) (Sg k)))) (Sg k) =
-              filter (fun x => negb (hit (Ig k) x)) (Sg k)).
-  { apply filter_ext_in. intros v Hv. rewrite mem_filter.
-    assert (M : mem v (Sg k) = true) by (apply dmem_In; exact Hv). rewrite M. reflexivity. }
-  rewrite E. lia.
-Qed.
-
-Lemma Ig_in_Sg : forall k v, In v (Ig (S k)) -> In v (Sg k).
-Proof. intros k v H. unfold Ig in H. cbn [gen gen_next snd] in H. apply filter_In in H. apply H. Qed.
-
-Lemma Sg_mono : forall k v, In v (Sg (S k)) -> In v (Sg k).
-Proof. intros k v H. unfold Sg in H. cbn [gen gen_next fst] in H. apply filter_In in H. apply H. Qed.
-
-End Generations.
-
-(* ------------------------------------------------------------------ *)
-(* Part 3: deterministic rules: the contact loop is a pure fold          *)
-
-Lemma existsb_eq_mem : forall (f : node -> bool) v l,
-  existsb (fun w => N.eqb w v && f w) l = mem v l && f v.
-Proof.
-  intros f v l. induction l as [|w l IH]; [reflexivity|].
-  cbn [existsb]. rewrite mem_cons, IH. rewrite (N.eqb_sym v w).
-  destruct (N.eqb_spec w v) as [E|E]; [subst w|]; cbn [andb orb]; [|reflexivity].
-  destruct (f v); [reflexivity|]. rewrite andb_false_r. reflexivity.
-Qed.
-
-Lemma existsb_flat_map : forall (A B : Type) (f : B -> bool) (h : A -> list B) l,
-  existsb f (flat_map h l) = existsb (fun x => existsb f (h x)) l.
-Proof.
-  intros A B f h l. induction l as [|x l IH]; [reflexivity|].
-  simpl. rewrite existsb_app, IH. reflexivity.
-Qed.
-
-Lemma existsb_map' : forall (A B : Type) (f : B -> bool) (h : A -> B) l,
-  existsb f (map h l) = existsb (fun x => f (h x)) l.
-Proof. intros A B f h l. induction l as [|x l IH]; [reflexivity|]. simpl. rewrite IH. reflexivity. Qed.
-
-Lemma length_ninsert : forall x l, length (ninsert x l) = S (length l).
-Proof. intros x l. induction l as [|h t IH]; [reflexivity|]. cbn [ninsert]. destruct (N.leb x h); cbn [length]; [reflexivity|]. rewrite IH. reflexivity. Qed.
-Lemma length_nsort : forall l, length (nsort l) = length l.
-Proof. induction l as [|x l IH]; [reflexivity|]. cbn [nsort fold_right]. fold (nsort l). rewrite length_ninsert, IH. reflexivity. Qed.
-
-Lemma lenZ_cons : forall (A : Type) (x : A) l, lenZ (x :: l) = (lenZ l + 1)%Z.
-Proof. intros. unfold lenZ. cbn [length]. lia. Qed.
-
-Section Det.
-Variable g : graph.
-Variable tt : node -> node -> nat -> bool.
-Variable pick : nat -> node -> nat.
-Variable full : bool.
-
-Fixpoint cfold (k : nat) (age : node -> nat) (cs : list (node * node)) (c : cst) : cst :=
-  match cs with
-  | [] => c
-  | (u, v) :: cs' =>
-    if c_sus c v then
-      if tt u v (age u)
-      then cfold k age cs' (mkC (fupdN (c_sus c) v false) (v :: c_new c) (c_inf c ++ [(v, [u])])
-                                (c_nS c - 1)%Z ((k, u, v) :: c_q c))
-      else cfold k age cs' (mkC (c_sus c) (c_new c) (c_inf c) (c_nS c) ((k, u, v) :: c_q c))
-    else if full && mem v (c_new c) then
-      if tt u v (age u)
-      then cfold k age cs' (mkC (c_sus c) (c_new c) (inf_append (c_inf c) v u) (c_nS c) ((k, u, v) :: c_q c))
-      else cfold k age cs' (mkC (c_sus c) (c_new c) (c_inf c) (c_nS c) ((k, u, v) :: c_q c))
-    else cfold k age cs' c
-  end.
-
-Lemma cloop_det : forall k age cs c,
-  cloop (det_rules tt pick) full k age cs c = Ret (cfold k age cs c).
-Proof.
-  intros k age cs. induction cs as [|[u v] cs IH]; intro c; [reflexivity|].
-  cbn [cloop cfold]. destruct (c_sus c v).
-  - cbn [det_rules r_test bind]. destruct (tt u v (age u)); apply IH.
-  - destruct (full && mem v (c_new c)); [|apply IH].
-    cbn [det_rules r_test bind]. destruct (tt u v (age u)); apply IH.
-Qed.
-
-Definition hitc (age : node -> nat) (cs : list (node * node)) (v : node) : bool :=
-  existsb (fun e => N.eqb (snd e) v && tt (fst e) (snd e) (age (fst e))) cs.
-
-Lemma cfold_sus : forall k age cs c v,
-  c_sus (cfold k age cs c) v = c_sus c v && negb (hitc age cs v).
-Proof.
-  intros k age cs. induction cs as [|[u w] cs IH]; intros c v.
-  - cbn. rewrite andb_true_r. reflexivity.
-  - cbn [cfold hitc existsb fst snd]. fold (hitc age cs v).
-    destruct (c_sus c w) eqn:Es.
-    + destruct (tt u w (age u)) eqn:Et.
-      * rewrite IH. cbn [c_sus]. unfold fupdN. rewrite (N.eqb_sym w v).
-        destruct (N.eqb_spec v w) as [E|E]; cbn [andb orb negb].
-        -- rewrite andb_false_r. reflexivity.
-        -- reflexivity.
-      * rewrite IH. cbn [c_sus]. rewrite andb_false_r. reflexivity.
-    + assert (G : c_sus c v && negb (hitc age cs v) =
-                  c_sus c v && negb (N.eqb w v && tt u w (age u) || hitc age cs v)).
-      { destruct (N.eqb_spec w v) as [E|E]; [subst w; rewrite Es; reflexivity|reflexivity]. }
-      destruct (full && mem w (c_new c)); [destruct (tt u w (age u))|]; rewrite IH; cbn [c_sus]; exact G.
-Qed.
-
-Lemma cfold_new : forall k age cs c v,
-  mem v (c_new (cfold k age cs c)) = mem v (c_new c) || (c_sus c v && hitc age cs v).
-Proof.
-  intros k age cs. induction cs as [|[u w] cs IH]; intros c v.
-  - cbn. rewrite andb_false_r, orb_false_r. reflexivity.
-  - cbn [cfold hitc existsb fst snd]. fold (hitc age cs v).
-    destruct (c_sus c w) eqn:Es.
-    + destruct (tt u w (age u)) eqn:Et.
-      * rewrite IH. cbn [c_sus c_new]. rewrite mem_cons. unfold fupdN. rewrite (N.eqb_sym w v).
-        destruct (N.eqb_spec v w) as [E|E]; cbn [andb orb negb].
-        -- subst w. rewrite Es. cbn [andb]. rewrite orb_true_r. reflexivity.
-        -- reflexivity.
-      * rewrite IH. cbn [c_sus c_new]. rewrite andb_false_r. reflexivity.
-    + assert (G : mem v (c_new c) || c_sus c v && hitc age cs v =
-                  mem v (c_new c) || c_sus c v && (N.eqb w v && tt u w (age u) || hitc age cs v)).
-      { destruct (N.eqb_spec w v) as [E|E]; [subst w; rewrite Es; reflexivity|reflexivity]. }
-      destruct (full && mem w (c_new c)); [destruct (tt u w (age u))|]; rewrite IH; cbn [c_sus c_new]; exact G.
-Qed.
-
-Lemma cfold_nS : forall k age cs c,
-  c_nS (cfold k age cs c) = (c_nS c - (lenZ (c_new (cfold k age cs c)) - lenZ (c_new c)))%Z.
-Proof.
-  intros k age cs. induction cs as [|[u w] cs IH]; intro c.
-  - cbn. lia.
-  - cbn [cfold]. destruct (c_sus c w).
-    + destruct (tt u w (age u)); rewrite IH; cbn [c_nS c_new]; [rewrite lenZ_cons|]; lia.
-    + destruct (full && mem w (c_new c)); [destruct (tt u w (age u))|]; rewrite IH; cbn [c_nS c_new]; lia.
-Qed.
-
-Definition cinv (c : cst) : Prop :=
-  NoDup (c_new c) /\ (forall v, In v (c_new c) -> c_sus c v = false) /\
-  Forall (fun e => snd e <> []) (c_inf c).
-
-Lemma cfold_inv : forall k age cs c, cinv c -> cinv (cfold k age cs c).
-Proof.
-  intros k age cs. induction cs as [|[u w] cs IH]; intros c Hc; [exact Hc|].
-  destruct Hc as [Hn [Hs Hf]].
-  cbn [cfold]. destruct (c_sus c w) eqn:Es.
-  - destruct (tt u w (age u)); apply IH.
-    + split; [|split]; cbn [c_new c_sus c_inf].
-      * constructor; [|exact Hn]. intro Hin. apply Hs in Hin. congruence.
-      * intros v [E|Hin]; unfold fupdN.
-        -- subst v. rewrite N.eqb_refl. reflexivity.
-        -- destruct (N.eqb v w); [reflexivity|apply Hs; exact Hin].
-      * apply Forall_app. split; [exact Hf|]. constructor; [|constructor]. cbn. discriminate.
-    + split; [|split]; assumption.
-  - destruct (full && mem w (c_new c)); [destruct (tt u w (age u))|]; apply IH.
-    + split; [|split]; cbn [c_new c_sus c_inf]; try assumption.
-      unfold inf_append. apply Forall_forall. intros e He. apply in_map_iff in He.
-      destruct He as [e0 [E He0]]. rewrite Forall_forall in Hf. specialize (Hf e0 He0).
-      destruct (N.eqb (fst e0) w); subst e; cbn [snd]; [|exact Hf].
-      intro H. apply app_eq_nil in H. destruct H as [_ H]. discriminate.
-    + split; [|split]; assumption.
-    + split; [|split]; assumption.
-Qed.
-
-Lemma hitc_contacts : forall age us v,
-  hitc age (contacts g us) v = hit g (fun u w => tt u w (age u)) us v.
-Proof.
-  intros age us v. unfold hitc, hit, contacts. rewrite existsb_flat_map.
-  induction us as [|u us IH]; [reflexivity|].
-  simpl. rewrite IH. f_equal.
-  rewrite existsb_map'. cbn [fst snd]. apply (existsb_eq_mem (fun w => tt u w (age u))).
-Qed.
-
-(* random.choice with deterministic rules never fails on a non-empty candidate list *)
-Lemma picks_det : forall k t inf tl pl, Forall (fun e => snd e <> []) inf ->
-  exists r, picks (det_rules tt pick) k t inf tl pl = Ret r.
-Proof.
-  intros k t inf. induction inf as [|[v c] inf IH]; intros tl pl Hf.
-  - eexists. reflexivity.
-  - inversion Hf as [|e l Hc Hf']; subst. cbn [snd] in Hc.
-    cbn [picks det_rules r_pick].
-    assert (Hlt : (Nat.modulo (pick k v) (length c) < length (nsort c))%nat).
-    { rewrite length_nsort. apply Nat.mod_upper_bound. destruct c; [contradiction|discriminate]. }
-    rewrite (nth_error_nth' (nsort c) v Hlt). cbn [bind]. apply IH. exact Hf'.
-Qed.
-
-End Det.
-
-(* ------------------------------------------------------------------ *)
-(* Part 4: the whole run with deterministic rules and no recovery test   *)
-
-Lemma filter_filter : forall (A : Type) (f h : A -> bool) l,
-  filter f (filter h l) = filter (fun x => h x && f x) l.
-Proof.
-  intros A f h l. induction l as [|x l IH]; [reflexivity|].
-  simpl. destruct (h x); simpl; [destruct (f x)|]; rewrite IH; reflexivity.
-Qed.
-
-Lemma filter_len_le : forall (A : Type) (f : A -> bool) l, (length (filter f l) <= length l)%nat.
-Proof. intros A f l. induction l as [|x l IH]; [apply le_n|]. simpl. destruct (f x); simpl; lia. Qed.
-
-Lemma NoDup_app_disj : forall (l1 l2 : list node), NoDup l1 -> NoDup l2 ->
-  (forall v, In v l1 -> ~ In v l2) -> NoDup (l1 ++ l2).
-Proof.
-  intros l1 l2 H1 H2 Hd. induction H1 as [|x l Hx Hn IH]; [exact H2|].
-  simpl. constructor.
-  - intro Hin. apply in_app_or in Hin. destruct Hin as [Hin|Hin]; [contradiction|].
-    apply (Hd x); [left; reflexivity|exact Hin].
-  - apply IH. intros v Hv. apply Hd. right. exact Hv.
-Qed.
-
-Lemma hit_ext : forall g (T T' : node -> node -> bool) I v,
-  (forall u w, T u w = T' u w) -> hit g T I v = hit g T' I v.
-Proof.
-  intros g T T' I v H. unfold hit. induction I as [|u I IH]; [reflexivity|].
-  simpl. rewrite IH, H. reflexivity.
-Qed.
-
-Lemma node_events_app : forall v l l', node_events v (l ++ l') = node_events v l ++ node_events v l'.
-Proof. intros. unfold node_events. rewrite filter_app, map_app. reflexivity. Qed.
-
-Lemma node_events_map : forall v (t : Q) (st : N) l, NoDup l ->
-  node_events v (map (fun u => (t, u, st)) l) = if mem v l then [(t, st)] else [].
-Proof.
-  intros v t st l H. induction H as [|x l Hx Hn IH]; [reflexivity|].
-  unfold node_events in *. simpl. rewrite (N.eqb_sym v x).
-  destruct (N.eqb_spec x v) as [E|E]; simpl.
-  - subst x. rewrite IH. apply dmem_false in Hx. rewrite Hx. reflexivity.
-  - exact IH.
-Qed.
-
-Section Run.
-Variable g : graph.
-Variable tt : node -> node -> nat -> bool.
-Variable pick : nat -> node -> nat.
-Variable full : bool.
-Variables i0 r0 : list node.
-Variable tmin : Q.
-Variable tmax : xtime.
-
-Definition T0 (u v : node) : bool := tt u v O.
-
-Hypothesis Hnd : NoDup (gnodes g).
-Hypothesis Hadj : forall u v, In u (gnodes g) -> In v (gadj g u) -> In v (gnodes g).
-Hypothesis Hi0 : forall v, In v i0 -> In v (gnodes g).
-Hypothesis Hr0 : forall v, In v r0 -> In v (gnodes g).
-Hypothesis Hi0nd : NoDup i0.
-Hypothesis Hr0nd : NoDup r0.
-Hypothesis Hdisj : forall v, In v i0 -> ~ In v r0.
-
-Notation SG := (Sg g T0 i0 r0).
-Notation IG := (Ig g T0 i0 r0).
-
-Fixpoint tq (k : nat) : Q := match k with O => tmin | S k' => tq k' + 1 end.
-Fixpoint Rg (k : nat) : Z := match k with O => lenZ r0 | S k' => (Rg k' + lenZ (IG k'))%Z end.
-Fixpoint rows_to (k : nat) : list row :=
-  match k with
-  | O => [(tmin, [(order g - lenZ i0 - lenZ r0)%Z; lenZ i0; lenZ r0])]
-  | S k' => (tq (S k'), [lenZ (SG (S k')); lenZ (IG (S k')); Rg (S k')]) :: rows_to k'
-  end.
-Fixpoint events_to (k : nat) (v : node) : list (Q * N) :=
-  match k with
-  | O => []
-  | S k' => events_to k' v ++
-      (if full && le_x (tq (S k')) tmax then
-         (if mem v (IG k') then [(tq (S k'), stR)] else []) ++
-         (if mem v (IG (S k')) then [(tq (S k'), stI)] else [])
-       else [])
-  end.
-
-Record dinv (k : nat) (s : dst) : Prop := {
-  iv_sus : forall v, In v (gnodes g) -> d_sus s v = mem v (SG k);
-  iv_infs : d_infs s = IG k;
-  iv_age : forall u, d_age s u = O;
-  iv_nS : d_nS s = lenZ (SG k);
-  iv_totR : d_totR s = Rg k;
-  iv_rows : d_rows s = rows_to k;
-  iv_hist : forall v, node_events v (rev (d_hlog s)) = events_to k v
-}.
-
-Lemma Sg_canon : forall k, SG k = canon g (SG k).
-Proof.
-  assert (H : forall k, exists P, SG k = filter P (gnodes g)).
-  { unfold Sg. induction k as [|k [P HP]].
-    - eexists. reflexivity.
-    - cbn [gen gen_next fst]. rewrite HP. rewrite filter_filter. eexists. reflexivity. }
-  intro k. destruct (H k) as [P HP]. rewrite HP at 1. unfold canon. apply filter_ext_in.
-  intros v Hv. rewrite HP. rewrite mem_filter.
-  assert (M : mem v (gnodes g) = true) by (apply dmem_In; exact Hv). rewrite M. reflexivity.
-Qed.
-
-Lemma count_S0 : lenZ (SG O) = (order g - lenZ i0 - lenZ r0)%Z.
-Proof.
-  unfold Sg. cbn [gen gen0 fst].
-  pose proof (lenZ_filter_split (fun v => mem v (i0 ++ r0)) (gnodes g)) as H.
-  assert (E1 : lenZ (filter (fun v => mem v (i0 ++ r0)) (gnodes g)) = (lenZ i0 + lenZ r0)%Z).
-  { change (filter (fun v => mem v (i0 ++ r0)) (gnodes g)) with (canon g (i0 ++ r0)).
-    unfold lenZ. rewrite NoDup_length_canon.
-    - rewrite app_length. lia.
-    - exact Hnd.
-    - apply NoDup_app_disj; assumption.
-    - intros v Hv. apply in_app_or in Hv. destruct Hv; [apply Hi0|apply Hr0]; assumption. }
-  assert (E2 : filter (fun x => negb (mem x (i0 ++ r0))) (gnodes g) =
-               filter (fun v => negb (mem v i0) && negb (mem v r0)) (gnodes g)).
-  { apply filter_ext. intro v. rewrite mem_app, negb_orb. reflexivity. }
-  cbv beta in H. rewrite E2, E1 in H. unfold order. unfold lenZ in *. lia.
-Qed.
-
-Lemma init_dinv : dinv O (init_state g tmin full i0 r0).
-Proof.
-  constructor; cbn [init_state d_sus d_infs d_age d_nS d_totR d_rows d_hlog].
-  - intros v Hv. unfold Sg. cbn [gen gen0 fst]. rewrite mem_filter.
-    assert (M : mem v (gnodes g) = true) by (apply dmem_In; exact Hv). rewrite M. reflexivity.
-  - reflexivity.
-  - reflexivity.
-  - symmetry. apply count_S0.
-  - reflexivity.
-  - reflexivity.
-  - intro v. reflexivity.
-Qed.
-
-Section WithOrd.
-Variable ord : nat -> list node -> list node.
-Hypothesis Hord : forall k l, Permutation (ord k l) l.
-
-Lemma step_dinv : forall k s, dinv k s ->
-  exists s', step g (det_rules tt pick) None ord tmax full k (tq k) s = Ret s' /\ dinv (S k) s'.
-Proof.
-  intros k s Hs. destruct Hs as [Hsus Hinfs Hage HnS HtotR Hrows Hhist].
-  unfold step. rewrite cloop_det. cbn [bind].
-  set (us := ord k (d_infs s)).
-  set (c := cfold tt full k (d_age s) (contacts g us) (mkC (d_sus s) [] [] (d_nS s) (l_q (d_logs s)))).
-  assert (Hc : cinv c).
-  { apply cfold_inv. split; [constructor|]. split; [intros v []|constructor]. }
-  destruct Hc as [Hcn [Hcs Hcf]].
-  assert (Hp : exists tp, (if full then picks (det_rules tt pick) k (tq k) (c_inf c) (d_tlog s) (l_p (d_logs s))
-                           else Ret (d_tlog s, l_p (d_logs s))) = Ret tp).
-  { destruct full; [apply picks_det; exact Hcf|eexists; reflexivity]. }
-  destruct Hp as [tp Hp]. rewrite Hp. cbn [bind].
-  eexists. split; [reflexivity|].
-  assert (Pus : Permutation us (IG k)). { unfold us. rewrite Hinfs. apply Hord. }
-  assert (Hus : forall v, mem v us = mem v (IG k)). { intro v. apply mem_perm. exact Pus. }
-  assert (Hnew : forall v, In v (gnodes g) -> mem v (c_new c) = mem v (SG k) && hit g T0 (IG k) v).
-  { intros v Hv. unfold c. rewrite cfold_new. cbn [c_new c_sus]. rewrite hitc_contacts.
-    rewrite (Hsus v Hv). cbn [mem existsb orb]. f_equal.
-    rewrite (hit_perm g _ us (IG k) v Pus). apply hit_ext. intros u w. rewrite Hage. reflexivity. }
-  assert (Hnewsub : forall v, In v (c_new c) -> In v (gnodes g)).
-  { intros v Hv. apply dmem_In in Hv. unfold c in Hv. rewrite cfold_new in Hv. cbn [c_new c_sus mem existsb orb] in Hv.
-    apply andb_true_iff in Hv. destruct Hv as [_ Hv]. rewrite hitc_contacts in Hv.
-    apply hit_spec in Hv. destruct Hv as [u [Hu [Ha _]]].
-    apply Hadj with u; [|exact Ha]. apply (Ig_sub g T0 i0 r0 k).
-    eapply Permutation_in; [exact Pus|exact Hu]. }
-  assert (Hcanon : canon g (c_new c) = IG (S k)).
-  { unfold Ig. cbn [gen gen_next snd]. fold (SG k). fold (IG k).
-    rewrite (Sg_canon k) at 1. unfold canon at 2. rewrite filter_filter.
-    unfold canon. apply filter_ext_in. intros v Hv. apply Hnew. exact Hv. }
-  assert (Hlen : lenZ (c_new c) = lenZ (IG (S k))).
-  { rewrite <- Hcanon. unfold lenZ. rewrite NoDup_length_canon; [reflexivity|exact Hnd|exact Hcn|exact Hnewsub]. }
-  assert (HnS' : c_nS c = lenZ (SG (S k))).
-  { unfold c at 1. rewrite cfold_nS. fold c. cbn [c_nS c_new]. rewrite Hlen, HnS.
-    rewrite (Sg_split g T0 i0 r0 k). unfold lenZ. cbn [length]. lia. }
-  rewrite Hcanon.
-  constructor; cbn [d_sus d_infs d_age d_nS d_totR d_rows d_hlog].
-  - intros v Hv. unfold c. rewrite cfold_sus. cbn [c_sus]. rewrite hitc_contacts, (Hsus v Hv).
-    rewrite (hit_perm g _ us (IG k) v Pus).
-    rewrite (hit_ext g (fun u w => tt u w (d_age s u)) T0 (IG k) v) by (intros u w; rewrite Hage; reflexivity).
-    unfold Sg at 2. cbn [gen gen_next fst]. fold (SG k). fold (IG k).
-    rewrite mem_filter, mem_filter.
-    destruct (mem v (SG k)), (hit g T0 (IG k) v); reflexivity.
-  - reflexivity.
-  - exact Hage.
-  - exact HnS'.
-  - cbn [Rg]. rewrite HtotR, Hinfs. reflexivity.
-  - cbn [rows_to tq Rg]. rewrite HnS', HtotR, Hinfs, Hrows. reflexivity.
-  - intro v. cbn [events_to tq]. rewrite <- Hhist.
-    destruct (full && le_x (tq k + 1) tmax); [|rewrite app_nil_r; reflexivity].
-    rewrite !rev_app_distr, !rev_involutive, <- app_assoc. rewrite !node_events_app.
-    rewrite node_events_map by (apply (Permutation_NoDup (Permutation_sym Pus)); apply Ig_NoDup; exact Hnd).
-    rewrite node_events_map by (apply Ig_NoDup; exact Hnd).
-    rewrite Hus. reflexivity.
-Qed.
-
-Definition stop (k : nat) : bool := negb (nonempty (IG k) && xlt (tq k) tmax).
-
-Lemma dloop_run : forall fuel k s, dinv k s ->
-  (nonempty (IG k) = true -> (length (SG k) < fuel)%nat) ->
-  exists K sK, (k <= K)%nat /\ (forall j, (k <= j < K)%nat -> stop j = false) /\ stop K = true /\ dinv K sK /\
-    dloop g (det_rules tt pick) None ord tmin tmax full i0 r0 fuel k (tq k) s = Ret (finish g tmin full i0 r0 sK).
-Proof.
-  induction fuel as [|f IH]; intros k s Hs Hf.
-  - exists k, s. split; [lia|]. split; [intros j Hj; lia|].
-    assert (E : nonempty (IG k) = false).
-    { destruct (nonempty (IG k)) eqn:E; [|reflexivity]. specialize (Hf eq_refl). lia. }
-    split; [unfold stop; rewrite E; reflexivity|]. split; [exact Hs|].
-    cbn [dloop]. rewrite (iv_infs k s Hs), E. reflexivity.
-  - destruct (stop k) eqn:Est.
-    + exists k, s. split; [lia|]. split; [intros j Hj; lia|]. split; [exact Est|]. split; [exact Hs|].
-      cbn [dloop]. rewrite (iv_infs k s Hs). unfold stop in Est. apply negb_true_iff in Est. rewrite Est. reflexivity.
-    + destruct (step_dinv k s Hs) as [s' [Hstep Hs']].
-      assert (Hne : nonempty (IG k) = true).
-      { unfold stop in Est. apply negb_false_iff in Est. apply andb_true_iff in Est. apply Est. }
-      specialize (Hf Hne).
-      destruct (IH (S k) s' Hs') as [K [sK [HK [Hj [HsK [HiK Hrun]]]]]].
-      * intro Hne'. pose proof (Sg_split g T0 i0 r0 k) as Hsp. unfold lenZ in Hsp.
-        destruct (IG (S k)) eqn:EI; [discriminate Hne'|]. cbn [length] in Hsp. lia.
-      * exists K, sK. split; [lia|]. split.
-        { intros j Hjr. destruct (Nat.eq_dec j k) as [E|E]; [subst j; exact Est|apply Hj; lia]. }
-        split; [exact HsK|]. split; [exact HiK|].
-        cbn [dloop]. rewrite (iv_infs k s Hs). unfold stop in Est. apply negb_false_iff in Est. rewrite Est.
-        rewrite Hstep. cbn [bind]. exact Hrun.
-Qed.
-
-
-(* the outputs of the L1 generation sequence stopped at step K *)
-Definition l1_rows (K : nat) : list row := rev (rows_to K).
-Definition l1_hist (K : nat) : list (node * history) :=
-  map (fun u => (u, (tmin, init_status i0 r0 u) :: events_to K u)) (gnodes g).
-Definition first_stop (K : nat) : Prop := (forall j, (j < K)%nat -> stop j = false) /\ stop K = true.
-
-Lemma first_stop_unique : forall K K', first_stop K -> first_stop K' -> K = K'.
-Proof.
-  intros K K' [H1 H2] [H1' H2']. destruct (Nat.lt_trichotomy K K') as [L|[E|L]]; [|exact E|].
-  - rewrite (H1' K L) in H2. discriminate.
-  - rewrite (H1 K' L) in H2'. discriminate.
-Qed.
-
-Lemma dsir_from_l1 : forall fuel, (length (gnodes g) < fuel)%nat ->
-  exists K out, first_stop K /\
-    dloop g (det_rules tt pick) None ord tmin tmax full i0 r0 fuel O tmin (init_state g tmin full i0 r0) = Ret out /\
-    so_rows (o_sim out) = l1_rows K /\
-    (if full then exists tr, so_full (o_sim out) = Some (mkFull (l1_hist K) tr)
-     else so_full (o_sim out) = None).
-Proof.
-  intros fuel Hf.
-  destruct (dloop_run fuel O (init_state g tmin full i0 r0) init_dinv) as [K [sK [_ [Hj [Hst [Hinv Hrun]]]]]].
-  - intros _. eapply Nat.le_lt_trans; [|exact Hf].
-    unfold Sg. cbn [gen gen0 fst]. apply filter_len_le.
-  - exists K, (finish g tmin full i0 r0 sK). split; [split; [intros j Hj'; apply Hj; lia|exact Hst]|].
-    split; [exact Hrun|]. unfold finish. cbn [o_sim so_rows so_full]. split.
-    + unfold l1_rows. rewrite (iv_rows K sK Hinv). reflexivity.
-    + destruct full; [|reflexivity]. eexists. f_equal. f_equal.
-      unfold build_hist, l1_hist. apply map_ext. intro u. rewrite (iv_hist K sK Hinv). reflexivity.
-Qed.
-
-End WithOrd.
-
-(* S + I + R = N in every generation *)
-Lemma l1_conserve : forall k, (lenZ (SG k) + lenZ (IG k) + Rg k)%Z = order g.
-Proof.
-  induction k as [|k IH].
-  - rewrite count_S0. cbn [Rg]. unfold Ig. cbn [gen gen0 snd].
-    assert (E : lenZ (canon g i0) = lenZ i0).
-    { unfold lenZ. rewrite NoDup_length_canon; [reflexivity|exact Hnd|exact Hi0nd|exact Hi0]. }
-    rewrite E. lia.
-  - cbn [Rg]. pose proof (Sg_split g T0 i0 r0 k). lia.
-Qed.
-
-Lemma tq_spec : forall k, tq k == tmin + inject_Z (Z.of_nat k).
-Proof.
-  induction k as [|k IH].
-  - cbn. ring.
-  - cbn [tq]. rewrite IH. rewrite Nat2Z.inj_succ. unfold Z.succ. rewrite inject_Z_plus. ring.
-Qed.
-
-(* the recorded history of v: it turns I at the (k+1)-st time exactly when it belongs to
-   generation k+1, and R exactly one step after belonging to a generation *)
-Lemma events_spec : forall K v e, In e (events_to K v) <->
-  exists k, (k < K)%nat /\ full && le_x (tq (S k)) tmax = true /\
-    ((e = (tq (S k), stR) /\ In v (IG k)) \/ (e = (tq (S k), stI) /\ In v (IG (S k)))).
-Proof.
-  induction K as [|K IH]; intros v e.
-  - cbn. split; [intros []|intros [k [Hk _]]; lia].
-  - cbn [events_to]. rewrite in_app_iff, IH. split.
-    + intros [[k [Hk H]]|H].
-      * exists k. split; [lia|exact H].
-      * exists K. split; [lia|]. destruct (full && le_x (tq (S K)) tmax); [|destruct H].
-        split; [reflexivity|]. apply in_app_or in H. destruct H as [H|H].
-        -- left. destruct (mem v (IG K)) eqn:E; [|destruct H]. destruct H as [H|[]]. split; [symmetry; exact H|apply dmem_In; exact E].
-        -- right. destruct (mem v (IG (S K))) eqn:E; [|destruct H]. destruct H as [H|[]]. split; [symmetry; exact H|apply dmem_In; exact E].
-    + intros [k [Hk [Hg H]]]. destruct (Nat.eq_dec k K) as [E|E].
-      * subst k. right. rewrite Hg. apply in_or_app. destruct H as [[He Hin]|[He Hin]].
-        -- left. apply dmem_In in Hin. rewrite Hin. left. symmetry. exact He.
-        -- right. apply dmem_In in Hin. rewrite Hin. left. symmetry. exact He.
-      * left. exists k. split; [lia|]. split; assumption.
-Qed.
-
-(* two iteration orders: same rows, same node histories *)
-Lemma dsir_perm_indep_from : forall ord1 ord2 fuel1 fuel2,
-  (forall k l, Permutation (ord1 k l) l) -> (forall k l, Permutation (ord2 k l) l) ->
-  (length (gnodes g) < fuel1)%nat -> (length (gnodes g) < fuel2)%nat ->
-  exists out1 out2,
-    dloop g (det_rules tt pick) None ord1 tmin tmax full i0 r0 fuel1 O tmin (init_state g tmin full i0 r0) = Ret out1 /\
-    dloop g (det_rules tt pick) None ord2 tmin tmax full i0 r0 fuel2 O tmin (init_state g tmin full i0 r0) = Ret out2 /\
-    so_rows (o_sim out1) = so_rows (o_sim out2) /\
-    option_map fd_hist (so_full (o_sim out1)) = option_map fd_hist (so_full (o_sim out2)).
-Proof.
-  intros ord1 ord2 fuel1 fuel2 H1 H2 Hf1 Hf2.
-  destruct (dsir_from_l1 ord1 H1 fuel1 Hf1) as [K1 [o1 [Hs1 [Hr1 [Hrows1 Hh1]]]]].
-  destruct (dsir_from_l1 ord2 H2 fuel2 Hf2) as [K2 [o2 [Hs2 [Hr2 [Hrows2 Hh2]]]]].
-  assert (E : K1 = K2) by (apply first_stop_unique; assumption). subst K2.
-  exists o1, o2. split; [exact Hr1|]. split; [exact Hr2|]. split; [congruence|].
-  destruct full.
-  - destruct Hh1 as [t1 Hh1]. destruct Hh2 as [t2 Hh2]. rewrite Hh1, Hh2. reflexivity.
-  - rewrite Hh1, Hh2. reflexivity.
-Qed.
-
-End Run.
-
-(* ------------------------------------------------------------------ *)
-(* Part 4b: statements over boolean well-formedness                      *)
-
-Definition wf_inputb (g : graph) (i0 r0 : list node) : bool :=
-  nodupb (gnodes g) && forallb (fun u => subsetb (gadj g u) (gnodes g)) (gnodes g) &&
-  nodupb i0 && nodupb r0 && subsetb i0 (gnodes g) && subsetb r0 (gnodes g) &&
-  forallb (fun v => negb (mem v r0)) i0.
-
-Definition perm_oracle (ord : nat -> list node -> list node) : Prop :=
-  forall k l, Permutation (ord k l) l.
-
-Lemma subsetb_In : forall a b, subsetb a b = true -> forall v, In v a -> In v b.
-Proof.
-  intros a b H v Hv. unfold subsetb in H. rewrite forallb_forall in H. apply dmem_In. apply H. exact Hv.
-Qed.
-
-Lemma wf_input_props : forall g i0 r0, wf_inputb g i0 r0 = true ->
-  NoDup (gnodes g) /\ (forall u v, In u (gnodes g) -> In v (gadj g u) -> In v (gnodes g)) /\
-  (forall v, In v i0 -> In v (gnodes g)) /\ (forall v, In v r0 -> In v (gnodes g)) /\
-  NoDup i0 /\ NoDup r0 /\ (forall v, In v i0 -> ~ In v r0).
-Proof.
-  intros g i0 r0 H. unfold wf_inputb in H.
-  apply andb_true_iff in H. destruct H as [H H7]. apply andb_true_iff in H. destruct H as [H H6].
-  apply andb_true_iff in H. destruct H as [H H5]. apply andb_true_iff in H. destruct H as [H H4].
-  apply andb_true_iff in H. destruct H as [H H3]. apply andb_true_iff in H. destruct H as [H1 H2].
-  split; [apply nodupb_NoDup; exact H1|].
-  split. { intros u v Hu Hv. rewrite forallb_forall in H2. specialize (H2 u Hu). cbv beta in H2.
-           exact (subsetb_In _ _ H2 v Hv). }
-  split; [apply subsetb_In; exact H5|]. split; [apply subsetb_In; exact H6|].
-  split; [apply nodupb_NoDup; exact H3|]. split; [apply nodupb_NoDup; exact H4|].
-  intros v Hv. rewrite forallb_forall in H7. specialize (H7 v Hv). cbv beta in H7.
-  apply dmem_false. apply negb_true_iff. exact H7.
-Qed.
-
-(* discrete_SIR with a rule that is a function of the contact, no recovery test: the run is the
-   L1 generation sequence stopped at the first k with I_k empty or tmin + k >= tmax; the
-   generation sets are the breadth-first levels; S + I + R = N *)
-Theorem dsir_bfs : forall g tt pick ord i0 r0o tmin tmax full fuel,
-  let r0 := opt_list r0o in let T := T0 tt in
-  wf_inputb g i0 r0 = true -> perm_oracle ord -> (length (gnodes g) < fuel)%nat ->
-  exists K out,
-    first_stop g tt i0 r0 tmin tmax K /\
-    discrete_SIR g (det_rules tt pick) None ord (Some i0) r0o None tmin tmax full fuel = Ret out /\
-    so_rows (o_sim out) = l1_rows g tt i0 r0 tmin K /\
-    (if full then exists tr, so_full (o_sim out) = Some (mkFull (l1_hist g tt full i0 r0 tmin tmax K) tr)
-     else so_full (o_sim out) = None) /\
-    (forall k v, In v (Ig g T i0 r0 k) <-> bfs_dist g T i0 r0 v k) /\
-    (forall k, (lenZ (Sg g T i0 r0 k) + lenZ (Ig g T i0 r0 k) + Rg g tt i0 r0 k)%Z = order g).
-Proof.
-  intros g tt pick ord i0 r0o tmin tmax full fuel r0 T Hwf Hord Hf.
-  destruct (wf_input_props g i0 r0 Hwf) as [Hnd [Hadj [Hi0 [Hr0 [Hi0nd [Hr0nd Hdisj]]]]]].
-  destruct (dsir_from_l1 g tt pick full i0 r0 tmin tmax Hnd Hadj Hi0 Hr0 Hi0nd Hr0nd Hdisj ord Hord fuel Hf)
-    as [K [out [Hst [Hrun [Hrows Hh]]]]].
-  exists K, out. split; [exact Hst|]. split; [exact Hrun|]. split; [exact Hrows|]. split; [exact Hh|].
-  split.
-  - intros k v. apply gen_is_bfs; assumption.
-  - apply l1_conserve; assumption.
-Qed.
-
-(* the outputs do not depend on the order in which Python iterates the set `infecteds` *)
-Theorem dsir_perm_indep : forall g tt pick ord1 ord2 i0 r0o tmin tmax full fuel1 fuel2,
-  wf_inputb g i0 (opt_list r0o) = true -> perm_oracle ord1 -> perm_oracle ord2 ->
-  (length (gnodes g) < fuel1)%nat -> (length (gnodes g) < fuel2)%nat ->
-  exists out1 out2,
-    discrete_SIR g (det_rules tt pick) None ord1 (Some i0) r0o None tmin tmax full fuel1 = Ret out1 /\
-    discrete_SIR g (det_rules tt pick) None ord2 (Some i0) r0o None tmin tmax full fuel2 = Ret out2 /\
-    so_rows (o_sim out1) = so_rows (o_sim out2) /\
-    option_map fd_hist (so_full (o_sim out1)) = option_map fd_hist (so_full (o_sim out2)).
-Proof.
-  intros g tt pick ord1 ord2 i0 r0o tmin tmax full fuel1 fuel2 Hwf H1 H2 Hf1 Hf2.
-  destruct (wf_input_props g i0 _ Hwf) as [Hnd [Hadj [Hi0 [Hr0 [Hi0nd [Hr0nd Hdisj]]]]]].
-  exact (dsir_perm_indep_from g tt pick full i0 (opt_list r0o) tmin tmax Hnd Hadj Hi0 Hr0 Hi0nd Hr0nd Hdisj
-           ord1 ord2 fuel1 fuel2 H1 H2 Hf1 Hf2).
-Qed.
-
-(* basic_discrete_SIR is discrete_SIR with the default rule and no recovery test *)
-Lemma basic_forwards :
-  forall g p ord i0 r0 rho tmin tmax full fuel,
-    basic_discrete_SIR g p ord i0 r0 rho tmin tmax full fuel =
-    discrete_SIR g (simple_rules p) None ord i0 r0 rho tmin tmax full fuel.
-Proof. reflexivity. Qed.
 
 (* ------------------------------------------------------------------ *)
 (* Part 5: Bernoulli(p) rules: the product laws                          *)
